@@ -2,7 +2,7 @@
 import itertools, json, os, subprocess, time
 from ..interp import Interp, Obj, Sym, View, vkey, _Ref, _ValPlace
 from ..build import AnalysisBroken
-from ..lib_c08 import (Fn, Summary, select, Uninterpretable, StepInterp, GuardInterp, int_locals_written_in, find_member_loop,
+from ..lib_c08 import (Fn, Summary, select, Uninterpretable, StepInterp, GuardInterp, Budgeted, int_locals_written_in, find_member_loop,
                        IterInterp, enclosing_loops, generic_args, may_write_through, HeaderTypes, leaves, Ownership, SHARED, UNKNOWN)
 
 PU = 'parse.c'
@@ -212,29 +212,32 @@ def layout_fn(P, u, rep, fname, union):
 
     budget_end = time.process_time() + 8       # CPU seconds for all explorations of this function (about 2 on today's tree)
 
-    def mk_state(ctx, cls, packed):
+    def mk_state(ctx, cls, packed, has_next=False):
         mty = Obj('Type', lazy=True, label='mem.ty')
         mty.fields.update({'size': Sym('S', 'int'), 'align': Sym('TA', 'int')})
         m = Obj('Member', lazy=True, label='mem')
         W = 0 if cls[3] else (Sym('W', 'int') if cls[1] else 0)
         m.fields.update({'ty': mty, 'align': Sym('MA', 'int'), 'is_bitfield': 1 if cls[1] else 0, 'bit_width': W,
                          'name': Obj('Token', lazy=True, label='mem.name') if cls[2] else 0,
-                         'next': 0, 'offset': 0, 'bit_offset': 0})
+                         'next': Obj('Member', lazy=True, label='mem.next') if has_next else 0, 'offset': 0, 'bit_offset': 0})
         if cls[1] and not cls[3]:
             ctx.bounds[('sym', 'W')] = [1, 1 << 20]
             ctx.neq[('sym', 'W')] = {0}
         for s in ('S', 'TA', 'MA'):
             ctx.bounds[('sym', s)] = [0 if (s == 'S' and not cls[1]) else 1, 1 << 20]
         t = Obj('Type', lazy=True, label='ty')
-        t.fields.update({'members': m, 'is_packed': 1 if packed else 0, 'align': Sym('A0', 'int'), 'size': Sym('Z0', 'int')})
+        # is_flexible is layout state: struct_members() sets it exactly when the last member is `T x[]`, which it turns into T[0]
+        # (checked by R08.4 flexible-array): FLEX = 1 is judged on states whose (last) member has size 0 only
+        t.fields.update({'members': m, 'is_packed': 1 if packed else 0, 'align': Sym('A0', 'int'), 'size': Sym('Z0', 'int'), 'is_flexible': Sym('FLEX', 'int')})
+        ctx.bounds[('sym', 'FLEX')] = [0, 1]
         ctx.c08 = (t, m)
         return t
 
-    def run_mode(mode, cls, packed):
+    def run_mode(mode, cls, packed, has_next=False):
         def cut_sud(it, ctx, call, args):
             if args and isinstance(args[0], _Ref):
                 args[0].place.set(it, Obj('Token', lazy=True, label='after-declaration'))     # contract: *rest = the token after the specifier
-            return mk_state(ctx, cls, packed)
+            return mk_state(ctx, cls, packed, has_next)
 
         def on_entry(it, env):
             if not hasattr(it.ctx, 'c08'):
@@ -268,7 +271,7 @@ def layout_fn(P, u, rep, fname, union):
         it, paths = run_mode('step', CLASSES[0], False)
         early = [Summary(ctx, {}) for ctx, out in paths if out[0] == 'ret' and not getattr(ctx, 'c08_reached', False)]
         inloop = [Summary(ctx, {}) for ctx, out in paths if getattr(ctx, 'c08_reached', False)]
-        base_e = {'A0': 1, 'A': 1, 'Z': 0, 'B': 0, 'S': 1, 'TA': 1, 'MA': 1, 'W': 1}
+        base_e = {'A0': 1, 'A': 1, 'Z': 0, 'B': 0, 'S': 1, 'TA': 1, 'MA': 1, 'W': 1, 'FLEX': 0}
         def _applies(lst, e):
             r = False
             for x in lst:
@@ -298,11 +301,23 @@ def layout_fn(P, u, rep, fname, union):
             try:
                 it, paths = run_mode('step', cls, packed)
                 sums = []
+                if any(out[0] == 'noreturn' and out[1] == '__step__' and out[2][0].get('__broke__') for ctx, out in paths):
+                    # the generic member of the step is the last one (next == NULL): leaving the loop by `break` there is the same as
+                    # finishing the iteration. The same step on a member that has a successor must not leave the loop.
+                    it2, paths2 = run_mode('step', cls, packed, has_next=True)
+                    early = [Summary(ctx, {}) for ctx, out in paths2 if out[0] == 'noreturn' and out[1] == '__step__' and out[2][0].get('__broke__')]
+                    hit = None
+                    for e in pts:
+                        for fx in ((0, 1) if (e['S'] == 0 and not cls[1]) else (0,)):
+                            e2 = dict(e, Z0=0, A0=1, FLEX=fx)
+                            if hit is None and any(x.applies(e2) for x in early):
+                                hit = e2
+                    rep.ob('R08.3', base + '/visits-every-member', hit is None,
+                           '%s: the member loop is left by `break` at a member that has a successor: the members after it are never laid out (offset 0, no contribution to size and alignment)'
+                           % (describe(cls, packed, hit, union) if hit else ''), where='%s:%d' % (PU, loop.line), facts={'state': hit})
                 for ctx, out in paths:
                     if out[0] == 'noreturn' and out[1] == '__step__':
                         post = out[2][0]
-                        if post.get('__broke__'):
-                            raise Uninterpretable('the member loop can be left early by break')
                         outs = {'align': post['ty.align'], 'offset': post['mem.offset'], 'bit_offset': post['mem.bit_offset']}
                         if union:
                             outs['size'] = post['ty.size']
@@ -320,8 +335,7 @@ def layout_fn(P, u, rep, fname, union):
                     rep.undecided('R08.3', base, 'no path of %s runs the member loop body for this member class' % fname, where=where)
                     continue
                 bad = {}
-                for e in pts:
-                    e = dict(e); e['Z0'] = 0; e['A0'] = 1
+                for e in [dict(e0, Z0=0, A0=1, FLEX=fx) for e0 in pts for fx in ((0, 1) if (e0['S'] == 0 and not cls[1]) else (0,))]:
                     # every path whose condition holds at e: fields outside the layout state (the member type's kind, the
                     # enclosing type's is_flexible, ...) are unconstrained, so each such path is taken for some program
                     hits = [x for x in steps if x.applies(e)]
@@ -393,7 +407,8 @@ def layout_fn(P, u, rep, fname, union):
             bad = None
             for A in ALIGNS:
                 for X in range(0, 300):
-                    e = {'Ax': A, 'Bx': X, 'Zx': X, 'Z0': 0, 'A0': 1, 'S': 1, 'TA': 1, 'MA': 1}
+                  for fx in (0, 1):
+                    e = {'Ax': A, 'Bx': X, 'Zx': X, 'Z0': 0, 'A0': 1, 'S': 1, 'TA': 1, 'MA': 1, 'FLEX': fx}
                     hits = [s for s in sums if s.applies(e)]
                     if not hits:
                         if lost is not None and lost[0].applies(e):
@@ -427,6 +442,244 @@ def layout_fn(P, u, rep, fname, union):
             rep.undecided('R08.3', base, 'size computation after the member loop not interpretable: %s: %s' % (type(ex).__name__, ex), where=where)
 
 
+# ---- whole-function layout of concrete member lists ---------------------------------------
+# The step / exit obligations above are an induction argument whose glue is not decided by them: that the loop starts
+# from the state struct_union_decl() hands over (an aligned(N)/packed attribute is already in the type), that every
+# member of the list is visited once and in order by the same step (no arm for "the first", "the last", "the flexible"
+# member that the generic member of the step analysis never is), and that whatever the running state is kept in (fields
+# of the type, locals) is what the code after the loop reads. layout_fold() decides that glue by *executing* the function
+# with Engine I on concrete, realistic type objects (short member lists over a catalogue of member shapes, entry
+# alignment 1/2/16, packed or not, flexible or not) and comparing every member offset, the alignment and the size with
+# the fold of the psABI step function. Everything is concrete, so any shape of running state / control flow is followed.
+def _fold_shapes(E):
+    """catalogue of member shapes: name -> (class name for the oracle, dict)"""
+    def T(kind, size, align, **kw):
+        d = {'kind': E[kind], 'size': size, 'align': align}
+        d.update(kw)
+        return d
+    ch, sh, i4, l8, ld = T('TY_CHAR', 1, 1), T('TY_SHORT', 2, 2), T('TY_INT', 4, 4), T('TY_LONG', 8, 8), T('TY_LDOUBLE', 16, 16)
+    db = T('TY_DOUBLE', 8, 8)
+
+    def arr(base, n):
+        return T('TY_ARRAY', base['size'] * n, base['align'], base=base, array_len=n)
+    inner = T('TY_STRUCT', 8, 4, members=[('a', i4, 0), ('b', ch, 4)])
+    S = {
+        'char': ('member', ch, {}), 'short': ('member', sh, {}), 'int': ('member', i4, {}), 'long': ('member', l8, {}),
+        'ldouble': ('member', ld, {}), 'char[3]': ('member', arr(ch, 3), {}), 'int[3]': ('member', arr(i4, 3), {}),
+        'int[0]': ('member', arr(i4, 0), {}), 'struct{int;char}': ('member', inner, {}),
+        'anon-struct': ('anonymous-member', inner, {'name': None}),
+        'alignas8-char': ('alignas-member', ch, {'align': 8}), 'alignas16-int': ('alignas-member', i4, {'align': 16}),
+        'int:3': ('bitfield', i4, {'bf': 3}), 'int:30': ('bitfield', i4, {'bf': 30}), 'char:7': ('bitfield', ch, {'bf': 7}), 'long:33': ('bitfield', l8, {'bf': 33}),
+        'int:5-unnamed': ('unnamed-bitfield', i4, {'bf': 5, 'name': None}), 'long:0': ('zero-width-bitfield', l8, {'bf': 0, 'name': None}),
+        'int:0': ('zero-width-bitfield', i4, {'bf': 0, 'name': None}),
+        # flexible array members (C11 6.7.2.1p18): struct_members() turns `T x[]` in last position into T[0] and sets is_flexible
+        'char[]': ('member', arr(ch, 0), {'flex': True}), 'int[]': ('member', arr(i4, 0), {'flex': True}), 'double[]': ('member', arr(db, 0), {'flex': True}),
+        'ldouble[]': ('member', arr(ld, 0), {'flex': True}), 'alignas8-char[]': ('alignas-member', arr(ch, 0), {'flex': True, 'align': 8}),
+    }
+    return S
+
+
+def _fold_class(cname):
+    for c in CLASSES:
+        if c[0] == cname:
+            return c
+    raise KeyError(cname)
+
+
+def _fold_oracle(seq, shapes, packed, A0, union):
+    """(offsets [(offset, bit_offset|None)], size, align) by folding the step oracle; None when a member is outside what the oracle judges"""
+    A, B, Z = A0, 0, 0
+    offs = []
+    for nm in seq:
+        cname, t, x = shapes[nm]
+        cls = _fold_class(cname)
+        if packed and (cls[1] or cname.startswith('alignas-')):
+            return None          # packed bit-fields / _Alignas members in packed types: judged (and partly known findings) by the step obligations
+        e = {'S': t['size'], 'TA': t['align'], 'MA': x.get('align', t['align']), 'W': x.get('bf', 0), 'B': B, 'A': A, 'Z': Z}
+        if cls[1] and not cls[3] and _crossing(e):
+            cls = _fold_class(cname + '-crossing-unit')
+        if union:
+            r = oracle_union(cls, packed, e)
+            A, Z = r['align'], r['size']
+            offs.append((0, 0 if cls[1] and not cls[3] else None))
+        else:
+            r = oracle_struct(cls, packed, e)
+            A, B = r['align'], r['bits']
+            if cls[3]:
+                offs.append(None)
+            else:
+                offs.append((r['offset'], r.get('bit_offset')))
+    return offs, (up(Z, A) if union else up(B, 8 * A) // 8), A
+
+
+def _fold_scenarios(shapes, union):
+    plain = [n for n, (c, t, x) in shapes.items() if not x.get('flex')]
+    flex = [n for n, (c, t, x) in shapes.items() if x.get('flex')]
+    small = ['char', 'int', 'long', 'int:3', 'char[3]', 'alignas8-char']
+    seqs = [()]
+    seqs += [(a,) for a in plain]
+    seqs += [(a, b) for a in plain for b in plain]
+    seqs += [(a, b, c) for a in small for b in small for c in small]
+    seqs += [(a, b, 'char', 'long') for a in ('char', 'int:3') for b in ('short', 'int:30')]
+    out = []
+    for s in seqs:
+        for packed in (False, True):
+            for A0 in ((1, 16) if len(s) != 2 else (1, 2, 16)):
+                if len(s) == 3 and (packed or A0 != 1) and s[0] != s[1] and s[1] != s[2]:
+                    continue      # keep the triple grid small: attributes/packed on triples with a repeated shape only
+                out.append(('aligned-attribute' if A0 > 1 else 'members', s, packed, A0, False))
+    if not union:
+        for f in flex:
+            for head in [()] + [(a,) for a in ('char', 'int', 'long', 'int:3', 'char[3]', 'ldouble')] + [('char', 'int'), ('long', 'char')]:
+                for packed in (False, True):
+                    for A0 in (1, 16):
+                        out.append(('flexible-array', head + (f,), packed, A0, True))
+        # a zero-length array in last position that is not flexible (GNU `int a[0]`), and the flexible flag next to it
+        for packed in (False, True):
+            out.append(('flexible-array', ('char', 'int[0]'), packed, 1, False))
+    return out
+
+
+def layout_fold(P, u, rep, fname, union):
+    fn = u.fn(fname)
+    if fn is None:
+        raise AnalysisBroken('anchor function %s vanished from %s' % (fname, PU))
+    where = '%s:%d' % (PU, fn.line)
+    E = u.enums
+    for k in ('TY_CHAR', 'TY_SHORT', 'TY_INT', 'TY_LONG', 'TY_DOUBLE', 'TY_LDOUBLE', 'TY_ARRAY', 'TY_STRUCT'):
+        if k not in E:
+            raise AnalysisBroken('enumerator %s vanished' % k)
+    shapes = _fold_shapes(E)
+    cur = {}
+
+    def mk_type(d):
+        o = Obj('Type', lazy=False, label='member type')
+        for k, v in d.items():
+            if k == 'base':
+                o.fields[k] = mk_type(v)
+            elif k == 'members':
+                head = 0
+                for i, (nm, t, off) in reversed(list(enumerate(v))):
+                    m = Obj('Member', lazy=False, label='inner.' + nm)
+                    m.fields.update({'ty': mk_type(t), 'name': Obj('Token', lazy=True, label=nm), 'offset': off, 'align': t['align'], 'idx': i, 'next': head})
+                    head = m
+                o.fields[k] = head
+            else:
+                o.fields[k] = v
+        return o
+
+    def cut_sud(it, ctx, call, args):
+        if args and isinstance(args[0], _Ref):
+            args[0].place.set(it, Obj('Token', lazy=True, label='after-declaration'))
+        group, seq, packed, A0, flexible = cur['sc']
+        ty = Obj('Type', lazy=False, label='ty')
+        head, mems = 0, []
+        for i in range(len(seq) - 1, -1, -1):
+            cname, t, x = shapes[seq[i]]
+            m = Obj('Member', lazy=False, label='member %d (%s)' % (i, seq[i]))
+            m.fields.update({'ty': mk_type(t), 'align': x.get('align', t['align']), 'idx': i, 'next': head, 'offset': 0, 'bit_offset': 0,
+                             'is_bitfield': 1 if 'bf' in x else 0, 'bit_width': x.get('bf', 0),
+                             'name': 0 if ('name' in x and x['name'] is None) else Obj('Token', lazy=True, label='name%d' % i)})
+            m.fields['tok'] = m.fields['name'] or Obj('Token', lazy=True, label='tok%d' % i)
+            head = m
+            mems.insert(0, m)
+        ty.fields.update({'kind': E['TY_STRUCT'], 'size': 0, 'align': A0, 'is_packed': 1 if packed else 0, 'members': head, 'is_flexible': 1 if flexible else 0})
+        ctx.c08f = (ty, mems)
+        return ty
+
+    it = Budgeted(P, u, {'cut': {'struct_union_decl': cut_sud}, 'track_stores': False})
+    it.set_budget(12)
+    groups = ('members', 'aligned-attribute') + (() if union else ('flexible-array',))
+    aspects = ('offsets', 'type-align', 'size')
+    verdict = {}          # (group, packed, aspect) -> (rank, text, facts)
+    counts = {}
+    broken = {}
+
+    def show(sc):
+        group, seq, packed, A0, flexible = sc
+        attrs = [a for a in ('packed' if packed else None, 'aligned(%d)' % A0 if A0 > 1 else None) if a]
+        return '%s %s{ %s }' % ('union' if union else 'struct', ('__attribute__((%s)) ' % ', '.join(attrs)) if attrs else '',
+                                ' '.join(n + ';' for n in seq))
+
+    for sc in _fold_scenarios(shapes, union):
+        group, seq, packed, A0, flexible = sc
+        want = _fold_oracle(seq, shapes, packed, A0, union)
+        if want is None:
+            continue
+        woffs, wsize, walign = want
+        cur['sc'] = sc
+        gk = (group, packed)
+        try:
+            paths = it.explore(fname, lambda ctx: [_Ref(_ValPlace(0)), Obj('Token', lazy=True, label='tok')], max_paths=16)
+        except AnalysisBroken as ex:
+            broken.setdefault(gk, '%s: %s' % (show(sc), ex))
+            continue
+        counts[gk] = counts.get(gk, 0) + 1
+        rank = (len(seq) == 0 or (flexible and len(seq) == 1), len(seq), sum(len(n) for n in seq), A0)       # example shown: a short, ordinary declaration
+
+        def note(aspect, text, facts=None):
+            k = (group, packed, aspect)
+            if k not in verdict or rank < verdict[k][0]:
+                verdict[k] = (rank, '%s: %s' % (show(sc), text), facts)
+        for ctx, out in paths:
+            if not hasattr(ctx, 'c08f'):
+                broken.setdefault(gk, '%s() returns without calling struct_union_decl()' % fname)
+                continue
+            ty, mems = ctx.c08f
+            if out[0] != 'ret':
+                note('size', 'the compiler stops with %s() instead of laying the type out' % out[1])
+                continue
+            rt = out[1]
+            rt = it.settle(rt) if isinstance(rt, View) else rt
+            if rt is not ty:
+                broken.setdefault(gk, '%s: %s() does not return the type struct_union_decl() gave it' % (show(sc), fname))
+                continue
+            vals = [ty.fields.get('size'), ty.fields.get('align')]
+            for m in mems:
+                vals += [m.fields.get('offset'), m.fields.get('bit_offset')]
+            vals = [it.settle(v) if isinstance(v, View) else v for v in vals]
+            if not all(isinstance(v, (int, bool)) for v in vals):
+                broken.setdefault(gk, '%s: the layout of a concrete member list is not concrete (%r)' % (show(sc), vals))
+                continue
+            gsize, galign = int(vals[0]), int(vals[1])
+            std = 'gcc' if packed else 'psABI'
+            for i, m in enumerate(mems):
+                if woffs[i] is None:
+                    continue
+                go, gb = int(vals[2 + 2 * i]), int(vals[3 + 2 * i])
+                wo, wb = woffs[i]
+                pos = 'the only' if len(mems) == 1 else ('the first' if i == 0 else ('the last' if i == len(mems) - 1 else 'a middle'))
+                if go != wo or (wb is not None and gb != wb):
+                    note('offsets', '%s member `%s` is placed at offset %d%s, %s: %d%s' % (
+                        pos, seq[i], go, (' bit %d' % gb) if wb is not None else '', std, wo, (' bit %d' % wb) if wb is not None else ''),
+                        {'member': i, 'sequence': list(seq), 'entry_align': A0, 'packed': packed})
+                    break
+            if galign != walign:
+                note('type-align', '_Alignof is %d, %s: %d%s' % (galign, std, walign,
+                     ' (an aligned(N) attribute that the type carries before its members are laid out is a lower bound of its alignment)' if A0 > 1 and galign < A0 else
+                     (' (a flexible array member contributes its alignment like a zero-length array)' if flexible else '')),
+                     {'sequence': list(seq), 'entry_align': A0, 'packed': packed})
+            if gsize != wsize:
+                note('size', 'sizeof is %d, %s: %d%s' % (gsize, std, wsize,
+                     ' (C11 6.7.2.1p18: as if the flexible array member were omitted, except for the trailing padding its alignment asks for: it is laid out like a zero-length array)' if flexible else ''),
+                     {'sequence': list(seq), 'entry_align': A0, 'packed': packed})
+    floor = {'members': 150, 'aligned-attribute': 150, 'flexible-array': 30}
+    for group in groups:
+        for packed in (False, True):
+            gk = (group, packed)
+            base = '%s:%s:fold/%s%s' % (PU, fname, group, '/packed' if packed else '')
+            if gk in broken:
+                rep.undecided('R08.3', base, 'whole-function layout not interpretable: %s' % broken[gk], where=where)
+                continue
+            fl = floor[group] // (3 if packed else 1)
+            if counts.get(gk, 0) < fl:
+                rep.undecided('R08.3', base, 'only %d concrete member lists were laid out (floor %d)' % (counts.get(gk, 0), fl), where=where)
+                continue
+            for a in aspects:
+                v = verdict.get((group, packed, a))
+                rep.ob('R08.3', base + '/' + a, v is None, v[1] if v else '', where=where, facts=v[2] if v else None)
+
+
 def _guarded(rep, key, f, *a):
     try:
         f(*a)
@@ -438,9 +691,12 @@ def r083(P, u, rep):
     rep.rule('R08.3', 'struct_decl/union_decl lay one more member out exactly as psABI 3.1.2 prescribes (placement, bit-field units, alignment contribution, packed) '
              'and round the final size to the alignment; struct and union take a member\'s alignment from the same source; attributes (before the tag and after the brace, for new, '
              'known and absent tags) and flexible arrays reach the type that is laid out; every positive aligned(N) sets the alignment, so among several aligned attributes '
-             '(in one list, in two lists, before the tag and after the brace) the last one decides, as in gcc', floor=90)
+             '(in one list, in two lists, before the tag and after the brace) the last one decides, as in gcc; executed on concrete member lists (with and without an aligned attribute, '
+             'packed, a flexible array member) struct_decl/union_decl give every member the offset, and the type the size and alignment, of the fold of that step', floor=120)
     _guarded(rep, '%s:struct_decl:layout' % PU, layout_fn, P, u, rep, 'struct_decl', False)
     _guarded(rep, '%s:union_decl:layout' % PU, layout_fn, P, u, rep, 'union_decl', True)
+    _guarded(rep, '%s:struct_decl:fold' % PU, layout_fold, P, u, rep, 'struct_decl', False)
+    _guarded(rep, '%s:union_decl:fold' % PU, layout_fold, P, u, rep, 'union_decl', True)
     _guarded(rep, '%s:attribute_list:attributes' % PU, r083_attributes, P, u, rep)
     _guarded(rep, '%s:struct_union_decl:definition' % PU, r083_definition, P, u, rep)
 
@@ -1546,6 +1802,8 @@ def _operand_type(P, u, rep, prim):
             type_parsers.add(name)
         elif sig(name) == ['Token * *', 'Token *'] and rt == 'Node *':
             node_parsers.add(name)
+        elif sig(name) == ['Type *'] and rt in ('int', 'long', 'unsigned int', 'unsigned long', 'size_t', '_Bool', 'bool'):
+            pass          # a helper of parse.c that maps a type to a number (`align_of(ty)`): executed, not cut
         else:
             opaque.add(name)
 
@@ -1639,7 +1897,9 @@ def _operand_type(P, u, rep, prim):
                         got = s_
                 if field == 'align' and got in ('BAL1', 'BAL2'):
                     depth = 1 if got == 'BAL1' else 2
-                    ok = all(kinds[i] == {'TY_ARRAY'} for i in range(depth))
+                    # array_of() gives an array its element's alignment; a variable-length array type has its element's alignment too
+                    # (its own align field describes the pointer slot, see the vla-operand obligation below)
+                    ok = all(kinds[i] is not None and kinds[i] <= {'TY_ARRAY', 'TY_VLA'} for i in range(depth))
                 if not ok and bad is None:
                     bad = ('`%s` yields %s instead of %s%s' % (
                         spelled, what.get(got, 'the value %r' % (v,)), what[want],
@@ -1654,6 +1914,72 @@ def _operand_type(P, u, rep, prim):
             else:
                 rep.ob('R08.4', key, True, '', where=where)
                 sem[(kw, form)] = ctors
+    # ---- _Alignof of a variable-length array type ---------------------------------------------------
+    # vla_of() gives a TY_VLA type object the size and alignment of the pointer-sized slot that represents the object (R08.2); its
+    # align field is therefore not the alignment of the array type. C11 6.5.3.4p3: _Alignof an array type is the alignment of the
+    # element type. primary() is executed on operand types that are concretely T[n] and T[n][m] (TY_VLA over TY_VLA over T, as
+    # the declarator builds them): the number that reaches the node constructor must be the alignment of T.
+    if 'TY_VLA' in u.enums and 'TY_INT' in u.enums:
+        def mk_vla(seq, depth):
+            def mk(ctx):
+                chain, nxt = [], 0
+                labs = [('element type', 'BS2', 'BAL2'), ('base of the operand type', 'BS1', 'BAL1'), ('operand type', 'TS', 'TAL')]
+                for i, (lab, s, a) in enumerate(labs):
+                    level = 2 - i                    # 0 = operand type
+                    t = Obj('Type', lazy=True, label=lab)
+                    t.fields.update({'size': Sym(s, 'int'), 'align': Sym(a, 'int'), 'base': nxt,
+                                     'kind': u.enums['TY_VLA'] if level < depth else u.enums['TY_INT']})
+                    nxt = t
+                    chain.insert(0, t)
+                ctx.c08op = chain
+                return [_Ref(_ValPlace(0)), tw.tokens(seq)]
+            return mk
+        for form, seq in (('type', ['_Alignof', '(', 'int', ')']), ('expr', ['_Alignof', 'y'])):
+            key = '%s:primary:_Alignof-%s/vla-operand' % (PU, form)
+            where = '%s:%d' % (PU, prim.line)
+            bad = und = None
+            judged = 0
+            for depth, elem in ((1, 'BAL1'), (2, 'BAL2')):
+                try:
+                    models = tw.models()
+                    models['skip'] = m_skip
+                    cuts = {'add_type': lambda it, ctx, c, a: None}
+                    for nm in type_parsers:
+                        cuts[nm] = cut_type
+                    for nm in node_parsers:
+                        cuts[nm] = cut_node
+                    it = Interp(P, u, {'models': models, 'cut': cuts, 'opaque': sorted(opaque), 'loop_limit': 3})
+                    paths = it.explore('primary', mk_vla(seq, depth), max_paths=300)
+                except AnalysisBroken as ex:
+                    und = und or 'primary() not interpretable on `%s` with a variable-length array operand: %s' % (' '.join(seq), ex)
+                    continue
+                shape = 'int[n]' if depth == 1 else 'int[n][m]'
+                for ctx, out in paths:
+                    if getattr(ctx, 'c08_parsed', 0) != 1:
+                        und = und or 'a path of primary() parses %d operands' % getattr(ctx, 'c08_parsed', 0)
+                        continue
+                    if out[0] != 'ret':
+                        continue         # rejecting _Alignof of a VLA type is a diagnostic, not a wrong value
+                    ev = [e for e in ctx.events if e[0] == 'call' and e[4] is out[1]]
+                    if not ev or not ev[0][2]:
+                        und = und or 'the value primary() returns for _Alignof of a variable-length array type is not the result of a node constructor applied to a number'
+                        continue
+                    v = ev[0][2][0]
+                    v = it.settle(v) if isinstance(v, View) else v
+                    judged += 1
+                    if _is_just(v, elem):
+                        continue
+                    got = [s_ for s_ in what if _is_just(v, s_)]
+                    if bad is None:
+                        bad = ('`_Alignof` of a variable-length array %s (`%s`) yields %s; C11 6.5.3.4p3: the alignment of the element type '
+                               '(the size and alignment fields of a TY_VLA type object describe the pointer-sized slot that holds the array\'s address, not the array)' % (
+                                   'type' if form == 'type' else 'object', shape, what.get(got[0], got[0]) if got else 'the value %r' % (v,)), ev[0][3])
+            if bad:
+                rep.ob('R08.4', key, False, bad[0], where='%s:%d' % (PU, bad[1]))
+            elif und or not judged:
+                rep.undecided('R08.4', key, und or 'no returning path of primary() to judge', where=where)
+            else:
+                rep.ob('R08.4', key, True, '', where=where)
     return sem
 
 
